@@ -159,11 +159,12 @@ def run(ctx):
             a = dict(snap_model(m), **{"caller X": snap_any(Yv)})
             report("transform", "transform", diff_names(b, a), {"model": mname, "Y": vname})
         if mname != "csr":
-            Z = (m.embedding_[:4] * 0.99).astype(np.float32)
-            b = dict(snap_model(m), **{"caller X": snap_any(Z)})
-            m.inverse_transform(Z)
-            a = dict(snap_model(m), **{"caller X": snap_any(Z)})
-            report("inverse_transform", "inverse", diff_names(b, a), {"model": mname})
+            # a few rows, and the round trip with one row per training sample (same shape as the training data's embedding)
+            for zname, Z in (("4 rows", (m.embedding_[:4] * 0.99).astype(np.float32)), ("n_train rows", m.embedding_.astype(np.float32).copy())):
+                b = dict(snap_model(m), **{"caller X": snap_any(Z)})
+                m.inverse_transform(Z)
+                a = dict(snap_model(m), **{"caller X": snap_any(Z)})
+                report("inverse_transform", "inverse", diff_names(b, a), {"model": mname, "Z": zname})
     A, B = models["euclid-e11"], models["euclid-e200"]
     # same samples, same neighbours, different strengths: graphs with an identical sparsity pattern
     A2 = umap.UMAP(n_neighbors=6, n_epochs=11, random_state=3, set_op_mix_ratio=0.5).fit(X)
